@@ -100,6 +100,23 @@ add("C32", "E2-worlds", "exploration",
     "Bound: 10 models in quick (120 in thorough), <=2 tuples; userset subjects are not expressible in AuthZEN and excluded. Trusted: the harness' own request mapping.",
     "bounded exhaustive enumeration of inputs on the implementation; differential oracle (AuthZEN endpoint vs native API)")
 
+add("C08", "E3-history-bfs", "model_checking",
+    "Explicit-state BFS over request histories (Check on every node, BatchCheck, ListObjects) against a fixed store with the query cache on: a state is the content of the harness-owned map-backed cache (timestamps dropped), a transition restores a cache state and executes one request on the real server; on every transition the answer must be the reference answer or one the cache-less server gives. Worlds: cycle-rich families in every observable insertion order; default and weighted-graph engines; breadth limit 1 and default.",
+    "Bound: two-relation cycle (<=5 tuples over 2 docs), recursive userset and recursive TTU (<=3 tuples, 4 in thorough), histories <=3 requests (4 in thorough). Trusted: cachex.Cache stands in for theine (Get/Set/Delete/TTL honoured; no eviction during a run); planner choice is the server's own (any cache-less answer is accepted).",
+    "explicit-state model checking of the cache: BFS over real cache states with restore, invariant checked on every transition executed on the implementation")
+add("C16", "E3-history-bfs", "model_checking",
+    "BFS over interleaved histories of two stores that share names, model text, object and user ids on one server with all caches on; differential oracle: each store's observations in H equal those of H restricted to that store run alone; a wrapping datastore asserts every storage call made for store A names store A; DeleteStore => GetStore not found and ListStores omits it (both backends).",
+    "Bound: 11 event kinds per store, <=3 events per store and <=4 in total (memory) / <=3 (SQLite) in quick; mutators ordered before observers per store (own-cache staleness is allowed behaviour). A deviation is a verdict only if it reproduces 6/6, else an anomaly.",
+    "explicit-state search over operation histories on the real server, differential oracle (interleaved vs isolated run)")
+add("C17", "E3-history-bfs", "model_checking",
+    "BFS over sequences of WriteAuthorizationModel (4 valid models with pairwise different answers, 10 invalid mutants), model-less Check, Check with explicit ids and model reads, on memory (default and all caches) and SQLite: accept <=> typesystem.NewAndValidate accepts and every mutant is rejected; rejected writes change nothing; ids increase; reads are proto.Equal to what was written; a model-less Check answers like the latest model, including right after a newer model is written (cache-warm states are kept distinct).",
+    "Bound: sequences <=4 (5 in thorough). Id monotonicity under concurrent writers in the same millisecond is schedule dependent (ulid.Make): observed deviations are recorded as anomalies, not verdicts.",
+    "explicit-state search over operation histories on the real server against a reference model")
+add("C31", "E3-history-bfs", "model_checking",
+    "BFS over WriteAssertions/ReadAssertions histories on two stores sharing two model ids, both backends; reference: map[(store,model)] -> last accepted list; all four pairs are read after every transition and compared element-wise with proto.Equal.",
+    "Bound: 6 assertion lists (empty, one, two, contextual tuples incl. conditioned, context structs, one invalid), depth 3 (5 in thorough: all 6^4 abstract states).",
+    "explicit-state search over operation histories on the real server against a reference model")
+
 NOT_BUILT ="check not built yet in this session; see DESIGN.md §5 for the planned decision procedure"
 NA = {}
 
